@@ -1,5 +1,6 @@
 """Run cvc on one function, discharge its obligations, return a plain-data
 report (picklable, so functions can be verified in parallel processes)."""
+import os
 import time, traceback, z3
 from . import cast as cast_mod
 from .exec import (Executor, State, PtrV, PyObj, Unsupported, PathLimit,
@@ -22,6 +23,17 @@ def discharge(ex, ob, timeout_ms):
     if r == z3.unsat:
         ob.status = 'proved'
         ob.extra['by'] = 'z3'
+        if os.environ.get('VERIF_CROSSCHECK') and ob.kind != 'nooverflow':
+            # thorough tier: second opinion from cvc5 on the same query
+            from engine import smt
+            r3 = smt.cross_check(list(ex.axioms) + list(ob.pc),
+                                 z3.Not(ob.goal))
+            ob.extra['cvc5'] = r3
+            if r3 == 'unsat':
+                ob.extra['by'] = 'z3+cvc5'
+            elif r3 == 'sat':
+                ob.status = 'undecided'
+                ob.extra['by'] = 'z3 says proved, cvc5 says refuted'
     elif r == z3.sat:
         ob.status = 'refuted'
         try:
